@@ -4,6 +4,9 @@
 #   tools/mutant_run.sh <worktree> <check> [<check>...]
 # Prints, per check, DETECTED (VIOLATION printed), MISSED (exit 0) or TROUBLE (exit 2).
 wt=$1; shift
+# one run at a time: the scratch-worktree engine binary (sim-alt.test) is shared
+exec 9>/tmp/verif-mutant-run.lock
+flock 9
 for c in "$@"; do
   out=$(cd /verif && VERIF_REPO=$wt VERIF_BUDGET_S=${VERIF_BUDGET_S:-60} ./check $c quick 2>&1)
   rc=$?
